@@ -455,6 +455,13 @@ impl SysEvent {
             _ => None,
         }
     }
+    /// What of the event goes into a run's digest: everything except raw descriptor numbers (the
+    /// result of an `open` is whatever number the kernel had free - it differs between processes
+    /// that inherited different descriptors - so only its sign is kept).
+    pub fn digest_text(&self) -> String {
+        let r = if self.op == 'O' { self.result.signum() } else { self.result };
+        format!("{}{}{} {} {}", self.thread, self.op, self.tok, self.asked, r)
+    }
     pub fn is_hard_error(&self) -> bool {
         self.tok.starts_with('e')
     }
